@@ -7,9 +7,9 @@
 
 using namespace vf;
 
-template <std::size_t N>
+template <std::size_t N, typename I = std::size_t>
 static std::vector<std::vector<uint64_t>> run_ndmap(const std::vector<uint64_t> & ext) {
-    using T = covfie::array::array<std::size_t, N>;
+    using T = covfie::array::array<I, N>;
     T s;
     for (std::size_t k = 0; k < N; ++k) s[k] = ext[k];
     std::vector<std::vector<uint64_t>> out;
@@ -40,11 +40,12 @@ int main(int argc, char ** argv) {
     install_terminate();
     std::string mode = argv[1];
     if (mode == "replay") {
-        for (auto & c : read_ndjson(argv[2])) {
-            ++g_cases;
+        auto cases = read_ndjson(argv[2]);
+        std::map<std::vector<uint64_t>, const json *> by_ext;
+        for (auto & c : cases) by_ext[c["ext"].get<std::vector<uint64_t>>()] = &c;
+        auto check = [&](const std::vector<std::vector<uint64_t>> & got, const json & c, const std::string & how) {
             std::vector<uint64_t> ext = c["ext"].get<std::vector<uint64_t>>();
-            auto got = run_any(ext);
-            json ctx = {{"ext", ext}};
+            json ctx = {{"ext", ext}, {"how", how}};
             expect_eq("ndmap/count", (uint64_t)got.size(), c["count"].get<uint64_t>(), ctx);
             // multiset comparison: order is not part of the property
             std::map<std::vector<uint64_t>, long> ms;
@@ -56,8 +57,22 @@ int main(int argc, char ** argv) {
             if (!ok) {
                 json bad = json::array();
                 for (auto & [t, n] : ms) if (n != 0 && bad.size() < 5) bad.push_back({{"tuple", t}, {"surplus", n}});
-                mismatch("ndmap/multiset", {{"ext", ext}, {"differences", bad}});
+                mismatch("ndmap/multiset", {{"ext", ext}, {"how", how}, {"differences", bad}});
             }
+        };
+        for (auto & c : cases) {
+            ++g_cases;
+            std::vector<uint64_t> ext = c["ext"].get<std::vector<uint64_t>>();
+            check(run_any(ext), c, "size_t indices");
+            // a second call of the same shape class right away: the same volume, the extents reversed (a stale per-thread or
+            // static memo of "the last box" would show here)
+            std::vector<uint64_t> rev(ext.rbegin(), ext.rend());
+            auto it = by_ext.find(rev);
+            if (it != by_ext.end() && rev != ext) check(run_any(rev), *it->second, "called right after the box with reversed extents");
+            // narrower index types
+            if (ext.size() == 2) { check(run_ndmap<2, uint8_t>(ext), c, "uint8_t indices"); check(run_ndmap<2, unsigned>(ext), c, "unsigned indices"); }
+            if (ext.size() == 3) check(run_ndmap<3, uint16_t>(ext), c, "uint16_t indices");
+            if (ext.size() == 1) check(run_ndmap<1, int>(ext), c, "int indices");
         }
         summary();
     } else if (mode == "trace") {
@@ -82,6 +97,16 @@ int main(int argc, char ** argv) {
             events += 2 + (long)got.size();
             ++g_cases;
         }
+        // index types narrower than size_t whose box VOLUME is a multiple of 2^bits (the extents themselves fit the type)
+        auto narrow = [&](auto tag, std::vector<uint64_t> ext) {
+            using I = decltype(tag);
+            out << json({{"e", "Begin"}, {"ext", ext}}).dump() << "\n";
+            auto got = ext.size() == 2 ? run_ndmap<2, I>(ext) : run_ndmap<3, I>(ext);
+            for (auto & t : got) out << json({{"e", "Visit"}, {"t", t}}).dump() << "\n";
+            out << json({{"e", "End"}}).dump() << "\n";
+            events += 2 + (long)got.size(); ++g_cases;
+        };
+        narrow(uint8_t{}, {16, 16}); narrow(uint8_t{}, {8, 4, 8}); narrow(uint8_t{}, {32, 16}); narrow(uint16_t{}, {64, 32, 32});
         summary({{"events", events}});
     }
     return 0;
